@@ -67,6 +67,11 @@ def call_server(server, data, charset=None, close=True):
         server.get_out_string(p_ctx)
         o.out = b''.join(p_ctx.out_string)
         o.fault = p_ctx.in_error or p_ctx.out_error
+        if len(contexts) > 1:
+            # auxiliary method contexts: processed after the primary one, as the transports do
+            from spyne.auxproc import process_contexts
+            o.stage = 'auxiliary'
+            process_contexts(server, contexts[1:], p_ctx, error=None)
         if close:
             o.stage = 'close'
             p_ctx.close()
